@@ -6,7 +6,7 @@ def ctlKindName : CtlKind → String
   | .select => "select" | .sbo => "operate sbo" | .dop => "operate do" | .donr => "operate donr"
 
 def fkName : FreezeKind → String
-  | .immediate => "immediate" | .clear => "clear"
+  | .immediate => "immediate" | .clear => "clear" | .atTime => "attime"
 
 def cbStr : Cb → String
   | .beginFragment => "begin_fragment"
